@@ -3,8 +3,8 @@
    Target.cropped_st; the generic iterator I is the model's colour stream, and `iter.next()` / `iter.nth(n)` - `&mut self`
    methods of the generic parameter - are FUNCTION PARAMETERS of the generated definitions, returning (new iterator, item).
    Instantiated with the stream primitives (st_next / st_nth = Target.snext / snth with the components swapped) the
-   generated functions equal Target.cropped_new / cropped_next.  `new`: for i32-sized areas whose intersection with the
-   origin rectangle has a non-negative corner (it always has: Target's remark at cropped_new).
+   generated functions equal Target.cropped_new / cropped_next.  `new`: for i32-sized areas (that the intersection
+   with the origin rectangle has a corner in 0 .. i32_max is derived: Proofs/SrcRectFacts.v).
    Statements only (proofs: Proofs/SrcCropped.v). *)
 From EG Require Import Base.Prelude Base.Casts Model.Geometry Model.Target Gen.SrcGeometry Gen.SrcCropped Proofs.SrcGeometry Proofs.SrcCropped.
 
@@ -14,8 +14,6 @@ Proof. exact src_cropped_next_eq. Qed.
 
 Theorem C03_src_cropped_new_is_model : forall it size crop,
   size_i32 size -> size_i32 (sz crop) ->
-  let ca := intersection (R (P 0 0) size) crop in
-  0 <= px (tl ca) <= i32_max -> 0 <= py (tl ca) <= i32_max -> 0 <= sw (sz ca) ->
   src_Cropped_new st_nth it size crop = cropped_new it size crop.
 Proof. exact src_cropped_new_eq. Qed.
 
